@@ -403,6 +403,13 @@ def enclosing_function(node):
     return n
 
 
+def enclosing_class(node):
+    n = parent(node)
+    while n is not None and not isinstance(n, ast.ClassDef):
+        n = parent(n)
+    return n
+
+
 def enclosing_stmt(node):
     while node is not None and not isinstance(node, ast.stmt):
         node = parent(node)
